@@ -3,7 +3,7 @@
    ONLY statements closed by `exact`, with Print Assumptions beneath each, and an Example per theorem. *)
 From Coq Require Import ZArith List Bool Sorted.
 From Mesa Require Import Generated.Tables Model.Devs Model.DevsSpec
-  Proofs.DevsProofs Proofs.DevsChunkProofs Proofs.DevsStepProofs Proofs.DevsTopProofs.
+  Proofs.DevsProofs Proofs.DevsChunkProofs Proofs.DevsStepProofs Proofs.DevsTopProofs Proofs.DevsVizProofs.
 Import ListNotations.
 Open Scope Z_scope.
 
@@ -47,6 +47,21 @@ Theorem C15_chunking : forall cfg fuel ops ps T st1 l1 st2 l2,
   exists n, run_loop cfg n T (final cfg fuel (init cfg) ops) = (st2, l1 ++ l2, true).
 Proof. exact chunking_final. Qed.
 Print Assumptions C15_chunking.
+
+(* the visualisation's loop `for _ in range(n): simulator.run_for(d)` (solara_viz.py: do_step, d = 1) is one
+   run_until(now + n*d) *)
+Theorem C15_run_for_pieces : forall cfg fuel n d st st1 l1, inv st -> 0 <= d -> (0 < n)%nat ->
+  run_pieces cfg fuel st (repeat (PFor d) n) = (st1, l1, true) ->
+  exists m, run_loop cfg m (s_time st + Z.of_nat n * d) st = (st1, l1, true).
+Proof. exact run_for_pieces. Qed.
+Print Assumptions C15_run_for_pieces.
+
+(* run_until at any horizons below T, then run_until T *)
+Theorem C15_run_until_pieces : forall cfg fuel ts st T st1 l1 st2 l2, inv st -> Forall (fun t => t <= T) ts ->
+  run_pieces cfg fuel st (map PUntil ts) = (st1, l1, true) -> run_loop cfg fuel T st1 = (st2, l2, true) ->
+  exists m, run_loop cfg m T st = (st2, l1 ++ l2, true).
+Proof. exact run_until_pieces. Qed.
+Print Assumptions C15_run_until_pieces.
 
 (* the one-piece result is unique: fuel only decides whether the run completes *)
 Theorem C15_one_piece_unique : forall cfg n m t st a b,
@@ -134,6 +149,13 @@ Proof.
   - cbn [ops_ok ex_ops app op_ok]. repeat split; vm_compute; discriminate.
   - split; vm_compute; reflexivity.
 Qed.
+
+Example C15_run_for_example :
+  let st := final ex_cfg 50 (init ex_cfg) ex_ops in
+  let r := run_pieces ex_cfg 50 st (repeat (PFor 8) 4) in
+  snd r = true /\ run_loop ex_cfg 50 (s_time st + 4 * 8) st = (fst (fst r), snd (fst r), true) /\
+  s_steps (fst (fst r)) = 4 /\ length (snd (fst r)) = 13%nat.
+Proof. cbv zeta. repeat split; vm_compute; reflexivity. Qed.
 
 Example C15_step_invariant_example :
   step_inv (init ex_cfg) /\ inv (init ex_cfg) /\
